@@ -24,8 +24,8 @@ CFG = {"quick": "MC_Physics_quick.cfg", "thorough": "MC_Physics_thorough.cfg"}
 
 
 def where_of(ctx):
-    cls, locus, fdir, k, fb, kb, iface, scale, exc0, gen, detail = ctx
-    return {"class": cls, "set": locus, "dir": fdir, "decade": k, "fields": "".join(sorted(fb)), "variants": "+".join(sorted(kb)), "iface": iface,
+    cls, locus, fdir, k, fb, kb, iface, scale, exc0, gen, detail, name = ctx
+    return {"class": cls, "source": name, "set": locus, "dir": fdir, "decade": k, "fields": "".join(sorted(fb)), "variants": "+".join(sorted(kb)), "iface": iface,
             "unit": "1" if scale == 100 else scale, "zero_excitation": exc0, "generic_motion": gen, "detail": detail}
 
 
